@@ -130,6 +130,32 @@ Theorem C03_quiescent_shim_head_is_store_head : forall (tail : N) (c : cfg),
   Ainv tail c -> all_quiet c -> h_height (c_cache c) = rs_head (c_store c).
 Proof. exact quiet_shim_is_store. Qed.
 
+(** EVERY schedule of the machine as it is since /repo f604e5b - an Append is one
+    step, and an underlying Store.Append may FAIL at will ([XLF]: the sync loop's,
+    [XTF i]: learner call i's; nothing has changed when it does: the shim's head
+    moves only after the write) - and arbitrary well-formed inputs, in EVERY
+    configuration, not only at quiescence: the Store holds exactly the heights
+    tail..head (one gap-free run, nothing above the head), nothing above the
+    shim's head; Syncer.Head() has not moved back; at quiescence the shim's head
+    is the Store's head and, without a pending error, nothing is pending.
+    (Before f604e5b a failed write left the shim's head ahead of the Store and
+    the next adjacent header was written above a hole: finding F25,
+    harness/c03 TestFailedWriteWitness and the corpus cases failwrite_loop /
+    failwrite_gossip.) *)
+Theorem C03_store_one_run_in_every_state : forall drift tv (tail : N) (a : hdr) (l : list hdr) (xs : list xevent),
+  consec (a :: l) -> Forall hok (a :: l) -> h_height a = tail -> Forall (wf_x tail) xs ->
+  let c := xrun drift tv (init_cfg tail (a :: l)) xs in
+  Ainv tail c /\
+  (let s := c_store c in
+   rs_tail s = tail /\
+   (forall n, tail <= n <= rs_head s -> rs_has n (rs_log s) = true) /\
+   (forall n, rs_has n (rs_log s) = true <-> tail <= n <= rs_head s)) /\
+  (forall y, In y (rs_log (c_store c)) -> h_height y <= h_height (c_cache c)) /\
+  h_height (local_head (init_cfg tail (a :: l))) <= h_height (local_head c) /\
+  (all_quiet c -> h_height (c_cache c) = rs_head (c_store c) /\
+                  (ss_err (c_state c) = None -> ranges_all (c_pend c) = [] /\ local_head c = c_cache c)).
+Proof. exact xrun_safe. Qed.
+
 (** non-vacuity: a schedule with a forged head, a duplicate, a stale head, an
     over-long answer racing a verifier call inside syncStore.Append *)
 Example C03_example :
@@ -177,6 +203,7 @@ Print Assumptions C03_verdict_kept.
 Print Assumptions C03_head_not_replaced.
 Print Assumptions C03_atomic_append_runs_are_runs.
 Print Assumptions C03_quiescent_shim_head_is_store_head.
+Print Assumptions C03_store_one_run_in_every_state.
 Print Assumptions C03_shim_accepts_iff_run.
 Print Assumptions C03_consecutive_is_run.
 Print Assumptions C03_sparse_answer_refused.
